@@ -129,7 +129,10 @@ func genCarrier(c *RunConfig, r *simctl.Rand, fast bool) {
 	c.Chunk = ChunkSpec{Kind: "full"}
 	c.Stream.EOFData = false
 	for i := range c.Prelude {
-		c.Prelude[i].SameSource = false
+		// (a healthy earlier call may have used this very file or in-memory reader)
+		if !(c.Carrier == "bytes" || c.Carrier == "file") || (c.Prelude[i].Fault.Kind != "" && c.Prelude[i].Fault.Kind != "none") {
+			c.Prelude[i].SameSource = false
+		}
 	}
 }
 
@@ -642,6 +645,12 @@ func Plan(prop, tier string, seed uint64) []RunConfig {
 								// the failing device behind another dynamic type: a func
 								// adapter, a struct passed by value, a seekable device node
 								c.Carrier = []string{"func", "valuestruct", "seeker"}[r.Intn(3)]
+							} else if (kind == "eof" || kind == "ueof") && sticky && r.Intn(3) == 0 {
+								// the source that ends early is a truncated file or a short
+								// in-memory reader (ReaderAt, Seeker, Len, WriteTo ...)
+								c.Carrier = []string{"file", "bytes", "writerto", "fifo"}[r.Intn(4)]
+								c.Chunk = ChunkSpec{Kind: "full"}
+								c.Prelude = nil
 							}
 							out = append(out, c)
 						}
@@ -752,6 +761,33 @@ func Plan(prop, tier string, seed uint64) []RunConfig {
 					out = append(out, c)
 				}
 			}
+		}
+		// the third (second, fourth) detection on one and the same file or in-memory
+		// reader: earlier healthy detections consumed the bytes in front
+		nrep := 12
+		if thorough {
+			nrep = 300
+		}
+		for i := 0; i < nrep; i++ {
+			w := []string{WPeriodFast, WPeriod, WPeriodFast, WPowerOnFast}[i%4]
+			W := workerChoices[r.Intn(len(workerChoices))]
+			scs := scenarios(w, r, false)
+			var pre []PreludeSpec
+			for k := 0; k < 1+r.Intn(3); k++ {
+				pw := w
+				if r.Intn(4) == 0 {
+					pw = Info(w).Sequential
+					if pw == "" {
+						pw = w + "Fast"
+					}
+				}
+				pre = append(pre, PreludeSpec{Workflow: pw, Stream: StreamSpec{Kind: "prf", Seed: r.Uint64()}, SameSource: true})
+			}
+			c := RunConfig{Prop: prop, Workflow: w, Workers: W, Policy: genPolicy(r, estSteps(w, W)), Stream: prfStream(r), Chunk: ChunkSpec{Kind: "full"},
+				Fault: FaultSpec{Kind: "none"}, Runners: scs[r.Intn(len(scs))].spec, ReadYield: 1, Prelude: pre, Carrier: []string{"file", "bytes"}[i%2],
+				CarrierOffset: []int{0, 0, 1250}[r.Intn(3)], Note: "repeated-detections-on-one-file"}
+			c.Stream.EOFData = false
+			out = append(out, c)
 		}
 		// a 2500-byte-sample workflow right after a 125000-byte-sample one of
 		// the same family, under full and under short reads
@@ -996,6 +1032,10 @@ func singleCase(prop string, nb int, r *simctl.Rand) RunConfig {
 		// a polled, slow device: empty reads, and reads that take seconds
 		c.Chunk.Empty = 2
 		c.Chunk.Delay, c.Chunk.DelaySec = 1+r.Intn(3), []int{2, 30, 600}[r.Intn(3)]
+	}
+	if len(c.Prelude) > 0 && r.Intn(3) == 0 {
+		// the earlier call was cut short by a failing source
+		c.Prelude[0].Fault = FaultSpec{Kind: []string{"eof", "custom"}[r.Intn(2)], At: int64(r.Intn(c.Prelude[0].NumByte)), Sticky: true}
 	}
 	if c.Carrier == "" && r.Intn(6) == 0 {
 		// another single-shot detection overlaps this one (on its own source):
